@@ -8,6 +8,7 @@ import (
 	"io"
 	"math"
 	"net"
+	"sort"
 	"sync"
 	"sync/atomic"
 	"testing"
@@ -21,6 +22,7 @@ import (
 	"verifharness/lib"
 	"verifharness/memnet"
 	"verifharness/peer"
+	"verifharness/refcodec"
 	"verifharness/sctpmem"
 )
 
@@ -624,12 +626,42 @@ func TestC07(t *testing.T) {
 				}
 			}(w)
 		}
-		wg.Wait()
-		var log []byte
-		for _, wr := range assoc.Writes() {
-			if wr.Stream == 0 {
-				log = append(log, wr.Data...)
+		// in half of the cases the peer sends requests on other streams all the while (the
+		// handler does nothing): which stream the reader is on changes between the attempts
+		// of a write
+		stopFeed := make(chan struct{})
+		feedDone := make(chan struct{})
+		go func() {
+			defer close(feedDone)
+			if c.I%2 == 0 {
+				return
 			}
+			for i := 0; i < 2000; i++ {
+				select {
+				case <-stopFeed:
+					return
+				default:
+				}
+				assoc.Feed(uint16(1+i%3), peer.Msg(0x80, 8388000, 0, uint32(0x7000+i), 1, peer.Str(9001, refcodec.OctetString, "inbound")))
+				time.Sleep(20 * time.Microsecond)
+			}
+		}()
+		wg.Wait()
+		close(stopFeed)
+		<-feedDone
+		// every message must be whole on one stream: the per-stream logs, one after the other
+		perStream := map[uint16][]byte{}
+		var streams []int
+		for _, wr := range assoc.Writes() {
+			if _, ok := perStream[wr.Stream]; !ok {
+				streams = append(streams, int(wr.Stream))
+			}
+			perStream[wr.Stream] = append(perStream[wr.Stream], wr.Data...)
+		}
+		sort.Ints(streams)
+		var log []byte
+		for _, st := range streams {
+			log = append(log, perStream[uint16(st)]...)
 		}
 		assoc.FeedEOF()
 		<-assoc.Closed()
@@ -638,7 +670,7 @@ func TestC07(t *testing.T) {
 			return
 		}
 		if _, problem := checkWireLog(log, okIDs, sizes); problem != "" {
-			c.Fail(ev.Sig{"op": "wire-log", "writers": W, "how": "retry-with-writers-sctp"}, nil, nil, "%d writers x %d messages with retries on stream 0 of an association (half of them without naming a stream), a third of the sends accept a part and report a temporary error: %s", W, per, problem)
+			c.Fail(ev.Sig{"op": "wire-log", "writers": W, "how": "retry-with-writers-sctp"}, nil, nil, "%d writers x %d messages with retries on stream 0 of an association (half of them without naming a stream; inbound requests on other streams meanwhile: %v), a third of the sends accept a part and report a temporary error; per-stream logs of streams %v: %s", W, per, c.I%2 == 1, streams, problem)
 			return
 		}
 		c.Event("messages_on_wire", W*per)
